@@ -18,6 +18,8 @@ for d in $ROOT/seeded/*/; do
   [ -f "$d/patch.diff" ] || continue
   if grep -q '"superseded"' "$d/meta.json" 2>/dev/null; then echo "$name - $tier superseded" >> "$out"; continue; fi
   prop=$(python3 -c "import json,sys;m=json.load(open('$d/meta.json'));print(m.get('own_check') or m['breaks_property'])")
+  # DIAG_NAMES="F17 F18": only these changes
+  if [ -n "${DIAG_NAMES:-}" ] && ! echo " $DIAG_NAMES " | grep -q " $name "; then continue; fi
   # DIAG_ONLY="C04 C08": only changes whose own check is one of these (after a change to those checks)
   if [ -n "${DIAG_ONLY:-}" ] && ! echo " $DIAG_ONLY " | grep -q " $prop "; then continue; fi
   tools/seed_run.sh "$name" "$tier" $prop 2>&1 | grep " exit=" >> "$out"
